@@ -36,12 +36,12 @@ Check choose_rejected_noop : forall (I : iface) (i : nat) (w : world) cs w',
 Print Assumptions choose_rejected_noop.
 
 Theorem set_variable_rejected_noop : forall (I : iface) (name : text) (v : value) (w : world),
-  assoc_mem name (vs_defaults (ss_vars (w_state w))) = false ->
-  exists msg, set_variable I name v w = (OErr BadArgument msg, w).
+  w_async w = false -> assoc_mem name (vs_defaults (ss_vars (w_state w))) = false ->
+  exists msg, set_variable I sw_now name v w = (OErr BadArgument msg, w).
 Proof. exact RejectProofs.set_variable_rejected_noop. Qed.
 Check set_variable_rejected_noop : forall (I : iface) (name : text) (v : value) (w : world),
-  assoc_mem name (vs_defaults (ss_vars (w_state w))) = false ->
-  exists msg, set_variable I name v w = (OErr BadArgument msg, w).
+  w_async w = false -> assoc_mem name (vs_defaults (ss_vars (w_state w))) = false ->
+  exists msg, set_variable I sw_now name v w = (OErr BadArgument msg, w).
 Print Assumptions set_variable_rejected_noop.
 
 Theorem observe_rejected_noop : forall (name obs : text) (w : world),
@@ -142,20 +142,20 @@ Check path_bad_argument_rejected_noop :
 Print Assumptions path_bad_argument_rejected_noop.
 
 Theorem remove_default_flow_rejected_noop : forall (w : world),
-  exists msg, remove_flow sw_now DEFAULT_FLOW w = (OErr BadArgument msg, w).
+  exists k msg, remove_flow sw_now DEFAULT_FLOW w = (OErr k msg, w).
 Proof. exact RejectProofs.remove_default_flow_rejected_noop. Qed.
 Check remove_default_flow_rejected_noop : forall (w : world),
-  exists msg, remove_flow sw_now DEFAULT_FLOW w = (OErr BadArgument msg, w).
+  exists k msg, remove_flow sw_now DEFAULT_FLOW w = (OErr k msg, w).
 Print Assumptions remove_default_flow_rejected_noop.
 
 Theorem remove_absent_flow_noop : forall (name : text) (w : world),
-  text_eqb name DEFAULT_FLOW = false ->
+  w_async w = false -> text_eqb name DEFAULT_FLOW = false ->
   text_eqb (fl_name (ss_flow (w_state w))) name = false ->
   (forall nf, ss_named (w_state w) = Some nf -> assoc_mem name nf = false) ->
   remove_flow sw_now name w = (OOk tt, w).
 Proof. exact RejectProofs.remove_absent_flow_noop. Qed.
 Check remove_absent_flow_noop : forall (name : text) (w : world),
-  text_eqb name DEFAULT_FLOW = false ->
+  w_async w = false -> text_eqb name DEFAULT_FLOW = false ->
   text_eqb (fl_name (ss_flow (w_state w))) name = false ->
   (forall nf, ss_named (w_state w) = Some nf -> assoc_mem name nf = false) ->
   remove_flow sw_now name w = (OOk tt, w).
